@@ -431,8 +431,8 @@ class ResourcePeriodicallyInterrupted(ResourceConstraint):
         resource_assigned = False
 
         for worker in workers:
-            conds = []
             for task, (start_task_i, end_task_i) in worker._busy_intervals.items():
+                conds = []
                 resource_assigned = True
                 overlaps = []
 
@@ -532,19 +532,20 @@ class ResourcePeriodicallyInterrupted(ResourceConstraint):
                             task._duration <= task.max_duration + total_overlap
                         )
 
-            # TODO: add AND only of mask is set?
-            core = z3.And(*conds)
+                # TODO: add AND only of mask is set?
+                core = z3.And(*conds)
 
-            mask = [core]
-            if self.start > 0:
-                mask.append(end_task_i <= self.start)
-            if self.end is not None:
-                mask.append(start_task_i >= self.end)
+                # the activity window applies to each task of the resource
+                mask = [core]
+                if self.start > 0:
+                    mask.append(end_task_i <= self.start)
+                if self.end is not None:
+                    mask.append(start_task_i >= self.end)
 
-            if len(mask) > 1:
-                self.set_z3_assertions(z3.Or(*mask))
-            else:
-                self.set_z3_assertions(*mask)
+                if len(mask) > 1:
+                    self.set_z3_assertions(z3.Or(*mask))
+                else:
+                    self.set_z3_assertions(*mask)
 
         if not resource_assigned:
             raise AssertionError(
